@@ -105,6 +105,14 @@ func buildX(x XVal) any {
 		return nil
 	case "nilptr":
 		return (*int)(nil)
+	case "ns": // same kind as string, another type
+		return xNamedStr(x.S)
+	case "ni":
+		return xNamedInt(x.I)
+	case "ls": // same kind as []any, another type
+		return []string{x.S, "t"}
+	case "ms": // same kind as map[string]any, another type
+		return map[string]string{"k": x.S}
 	case "map":
 		return buildXMap(x.M)
 	case "slice":
@@ -116,6 +124,9 @@ func buildX(x XVal) any {
 	}
 	return nil
 }
+
+type xNamedStr string
+type xNamedInt int
 
 func buildXMap(m map[string]XVal) map[string]any {
 	if m == nil {
@@ -169,6 +180,11 @@ func genX(t *rapid.T, depth int) XVal {
 	k := rapid.IntRange(0, 11).Draw(t, "xk")
 	if depth >= 2 && k >= 8 {
 		k = k % 8
+	}
+	if rapid.IntRange(0, 9).Draw(t, "xSameKind") == 0 {
+		// values whose type shares its reflect.Kind with one of the ordinary types
+		kind := []string{"ns", "ni", "ls", "ms"}[rapid.IntRange(0, 3).Draw(t, "xSameKindK")]
+		return XVal{K: kind, S: rapid.StringMatching("[a-c]{0,2}").Draw(t, "xss"), I: rapid.IntRange(0, 3).Draw(t, "xsi")}
 	}
 	switch k {
 	case 0, 1, 2:
